@@ -106,6 +106,10 @@ def gen_options(rng):
         cap=rng.choice([None, None, "mid"]),
         cpred=rng.choice([7, 23, 100000]),
         seed=rng.randrange(1000),
+        # second pass (GAPS-C04.md): the 5 000 000-row loop of make_train_sets run with a small `chunk_range`
+        # (None = the constant as it is), and the caller's Model object handed to a second brew call
+        chunk_range=rng.choice([None, None, 1, 7, 16]),
+        reuse_model=rng.random() < 0.6,
     )
 
 
@@ -142,13 +146,23 @@ def options_case(chk, rng, case=None):
                                  rng=case["seed"])
 
         kw = dict(test_fdr=0.5, folds=k, max_workers=case["workers"], rng=case["seed"])
+        import c04obj
+        m0 = fresh()          # the caller's model object: brew must fit deep copies of it, never the object itself
+        second = None
         try:
-            with P.chunk_sizes(predict=case["cpred"]):
+            with P.chunk_sizes(predict=case["cpred"]), c04obj.chunk_range(case.get("chunk_range")) as patched:
+                if not patched:
+                    chk.reject("T2x-chunk-range-constant-not-found"); return
                 if case["pretrained"] is None:
-                    _, models, scores, _ = mokapot.brew(dss, fresh(), subset_max_train=cap, ensemble=case["ensemble"],
+                    _, models, scores, _ = mokapot.brew(dss, m0, subset_max_train=cap, ensemble=case["ensemble"],
                                                         **kw)
+                    if case.get("reuse_model") and 2 * k <= TAGMOD and not c04obj.model_touched(m0):
+                        # object re-use: the same Model object, fresh dataset objects (brew consumes
+                        # `spectra_dataframe`), the same settings
+                        dss_b = [mkdata.read_dataset(d / f"in{j}.pin") for j in range(case["nfiles"])]
+                        second = mokapot.brew(dss_b, m0, subset_max_train=cap, ensemble=case["ensemble"], **kw)[1:3]
                 else:
-                    _, first, _, _ = mokapot.brew(dss, fresh(), subset_max_train=cap, **kw)
+                    _, first, _, _ = mokapot.brew(dss, m0, subset_max_train=cap, **kw)
                     if not all(m.is_trained for m in first):
                         chk.reject("T2x-training-failed"); return
                     given = list(first)
@@ -179,7 +193,6 @@ def options_case(chk, rng, case=None):
         if not all(m.is_trained for m in models):
             chk.reject("T2x-training-failed"); return
         R = RUNS[run]
-        tags = [m.estimator.tag_ for m in models]
         chk.case(None, ("T2x", case["data_seed"], k, case["ensemble"], str(case["pretrained"]), case["nfiles"]),
                  sample=dict(kind="brew-options", **{a: str(b) for a, b in case.items()}))
         chk.count("T2x-ensemble", case["ensemble"]); chk.count("T2x-pretrained", str(case["pretrained"]))
@@ -187,12 +200,46 @@ def options_case(chk, rng, case=None):
             chk.count("T2x-reuse-rng", case.get("reseed", "same"))
         chk.count("T2x-nfiles", case["nfiles"]); chk.count("T2x-workers", case["workers"])
         chk.count("T2x-folds", k); chk.count("T2x-cap", str(case["cap"]))
+        chk.count("T2x-chunk-range", str(case.get("chunk_range")))
+        chk.count("T2x-model-object-reused", second is not None)
         info = dict(case=case)
+        # the caller's model object is never fitted (brew.py:187 fits deep copies): Lean C04_fold_models_are_copies
+        if c04obj.model_touched(m0):
+            chk.spec_violation("T2x-callers-model-was-fitted",
+                               dict(info, is_trained=bool(m0.is_trained),
+                                    rows_memorised=len(getattr(m0.estimator, "memo_", ())),
+                                    clause="brew fitted the Model object it was given instead of a copy of it: the "
+                                           "object has memorised training rows of this call and carries them into "
+                                           "every later use (a second brew call scores folds with a model that has "
+                                           "seen them)"))
+            return
+        if not judge_options(chk, case, info, R, models, scores, k, ntot, feat, spectra, offs, tabs):
+            return
+        if second is not None:
+            if not all(m.is_trained for m in second[0]):
+                chk.reject("T2x-training-failed-second-call")
+            elif not judge_options(chk, case, dict(info, call="second call with the same Model object"), R,
+                                   second[0], second[1], k, ntot, feat, spectra, offs, tabs):
+                return
+        # the order in which pre-trained models are given must not matter (they are re-ordered by fold)
+        if case["pretrained"] is not None:
+            given_folds = [m.fold for m in given]
+            order = deep(a_int, dec(common.driver_batch([req("tdcsortfold", given_folds)])[0]))
+            order = order if isinstance(order, list) else [order]
+            if [given[i] for i in order] != list(models) and [id(given[i]) for i in order] != [id(m) for m in models]:
+                chk.corr_break("tdcsortfold", dict(info, given_folds=given_folds, model_order=order))
+
+
+def judge_options(chk, case, info, R, models, scores, k, ntot, feat, spectra, offs, tabs):
+    """the held-out clause on one brew call made with the memorising probe; False = a violation was reported"""
+    n0 = len(chk.spec_violations)
+    if True:
+        tags = [m.estimator.tag_ for m in models]
         if [m.fold for m in models] != list(range(1, k + 1)) or len(set(tags)) != k:
             chk.spec_violation("T2x-models-not-in-fold-order",
                                dict(info, folds_of_returned_models=[m.fold for m in models],
                                     clause="the returned / used models are not one per fold in fold order"))
-            return
+            return False
         train = [set(R["first_score"].get(t, [])) for t in tags]      # rows handed to Model.fit of fold f's model
         memo = [set(R["fits"].get(t, set())) for t in tags]           # rows the estimator memorised
         flat = np.concatenate([np.asarray(s, dtype=float).ravel() for s in scores])
@@ -252,13 +299,7 @@ def options_case(chk, rng, case=None):
                                         clause="ensemble score != mean over the fold models of their raw outputs"))
             elif exp != spec_mean:
                 chk.corr_break("tdcensemble", dict(info, model=exp[:8], impl=[float(x) for x in flat[:8]]))
-        # the order in which pre-trained models are given must not matter (they are re-ordered by fold)
-        if case["pretrained"] is not None:
-            given_folds = [m.fold for m in given]
-            order = deep(a_int, dec(common.driver_batch([req("tdcsortfold", given_folds)])[0]))
-            order = order if isinstance(order, list) else [order]
-            if [given[i] for i in order] != list(models) and [id(given[i]) for i in order] != [id(m) for m in models]:
-                chk.corr_break("tdcsortfold", dict(info, given_folds=given_folds, model_order=order))
+    return len(chk.spec_violations) == n0
 
 
 # ---------------------------------------------------------------------------------------------------------
@@ -542,7 +583,9 @@ def gen_pipeline(rng):
     return dict(data_seed=rng.randrange(1 << 30), ncoll=rng.choice([1, 2, 2]), n_spectra=rng.choice([60, 90]),
                 folds=rng.choice([2, 3]), seed=rng.randrange(1000), aggregate=rng.random() < 0.4,
                 keep_decoys=rng.random() < 0.7, ensemble=rng.random() < 0.25, cap=rng.choice([None, None, 90]),
-                load_models=rng.random() < 0.6)
+                load_models=rng.random() < 0.6,
+                # rows per temporary sorted chunk file of assign_confidence (None = one chunk), second pass
+                conf_chunk=rng.choice([None, 37]))
 
 
 def pipeline_case(chk, rng, case=None):
@@ -585,7 +628,8 @@ def pipeline_case(chk, rng, case=None):
                     f = d / f"model{m.fold}.pkl"; m.save(f); files.append(str(f))
                 argv += ["--load_models", *files[::-1]]
             with contextlib.redirect_stdout(io.StringIO()), contextlib.redirect_stderr(io.StringIO()), \
-                    P.pep_kernel(stub=True):
+                    P.pep_kernel(stub=True), \
+                    P.chunk_sizes(**({"confidence": case["conf_chunk"]} if case.get("conf_chunk") else {})):
                 M.main(argv)
         except (RuntimeError, ValueError, IndexError) as e:
             chk.reject("E2E-pipeline-refused:" + type(e).__name__); return
@@ -596,6 +640,7 @@ def pipeline_case(chk, rng, case=None):
         chk.count("E2E-collections", case["ncoll"]); chk.count("E2E-aggregate", case["aggregate"])
         chk.count("E2E-keep-decoys", case["keep_decoys"]); chk.count("E2E-ensemble", case["ensemble"])
         chk.count("E2E-load-models", case["load_models"])
+        chk.count("E2E-confidence-chunk", str(case.get("conf_chunk")))
         info = dict(case=case)
         shared = case["aggregate"] or case["ncoll"] == 1
         qreqs, plan = [], []
